@@ -222,6 +222,11 @@ var wsAll = []string{" ", " ", " ", "\t", " ", "　", " ", "\r\n", "\v"}
 // "--" and "||" overlap themselves: "a---" holds one separator and a stray "-", and
 // strings.Count/HasSuffix-style shortcuts disagree with strings.Split there
 var lineSeps = []string{"\n", "\n", "\n", "\r\n", "|", "<br>", "·\n", "--", "||", "\uFFFD", " ", "  "}
+// line separators made of the letter the library uses internally as a stand-in (paragraph-mode Wrap and
+// Justify pad a paragraph with "A"s in place of the paragraph separator's affixes): alone, doubled, and
+// next to letters that the texts contain (defect D18: the stand-ins were read as line separators); "BA" makes
+// the repaired search for a free stand-in take two steps
+var internalSeps = []string{"A", "AA", "xA", "Ay", "BA"}
 var paraSeps = []string{"\n\n", "\n\n", "\n\n", "\r\n\r\n", "\n--\n", "<P>\n</P>", "||", "¶", "\n\n> ", " <<\n\n", " <fi\u0301n> ", "\U0001F1E9\U0001F1EA\n\U0001F1EA\U0001F1F8"}
 
 // mode: 0 = stable only, 1 = mostly stable with some unstable, 2 = ascii letters only,
@@ -490,6 +495,9 @@ func (g *gen) opts(mode int) (rosed.Options, string, string) {
 		o.LineSeparator = rosed.DefaultLineSeparator
 	default:
 		o.LineSeparator = g.pick(lineSeps)
+		if g.chance(0.06) {
+			o.LineSeparator = g.pick(internalSeps)
+		}
 		ls = o.LineSeparator
 	}
 	switch g.r.Intn(4) {
